@@ -19,6 +19,9 @@ import (
 
 type c13Probe struct {
 	Addr model.B `json:"addr"` // 4 or 16 bytes
+	// Zone: the remote address carries an IPv6 zone (a link-local peer, fe80::1%eth0); prefixes have no
+	// zones, so it does not matter for admission
+	Zone string `json:"zone,omitempty"`
 }
 
 type c13Case struct {
@@ -160,7 +163,11 @@ func genC13Probes(t *rapid.T, c c13Case, all []string) c13Case {
 		if len(a) == 4 && rapid.Bool().Draw(t, "mapped_form") {
 			a = append(append([]byte{}, 0, 0, 0, 0, 0, 0, 0, 0, 0, 0, 0xff, 0xff), a...)
 		}
-		c.Probes = append(c.Probes, c13Probe{Addr: model.B(a)})
+		pr := c13Probe{Addr: model.B(a)}
+		if len(a) == 16 && rapid.IntRange(0, 2).Draw(t, "zoned") == 0 {
+			pr.Zone = rapid.SampledFrom([]string{"eth0", "2"}).Draw(t, "zone")
+		}
+		c.Probes = append(c.Probes, pr)
 	}
 	return c
 }
@@ -232,7 +239,10 @@ func runC13Probes(t failer, cc c13Case, cfg cfggen.Config, env *refEnv, sessionp
 		adm := c.Cfg.Admit(a)
 		// lenient: the fault decides between refusal and the next matching configuration
 		lenient := !adm.Grey && strict.Admit(a).Scope != adm.Scope
-		remote := &net.TCPAddr{IP: a.IP(), Port: 5000 + pi}
+		remote := &net.TCPAddr{IP: a.IP(), Port: 5000 + pi, Zone: p.Zone}
+		if p.Zone != "" {
+			ev.Class("probe:address-with-zone")
+		}
 		secret, handler, gerr := env.stack.Loader.Get(context.Background(), remote)
 		served := gerr == nil && secret != nil && handler != nil
 		if adm.Grey {
@@ -256,7 +266,7 @@ func runC13Probes(t failer, cc c13Case, cfg cfggen.Config, env *refEnv, sessionp
 			}
 			// at server level: closed, nothing written, no handler
 			before := len(env.rec.Calls())
-			d, err := env.dial(a.IP(), 6000+pi)
+			d, err := env.dialZone(a.IP(), 6000+pi, p.Zone)
 			if err != nil {
 				t.Fatalf("%v", err)
 			}
@@ -283,7 +293,7 @@ func runC13Probes(t failer, cc c13Case, cfg cfggen.Config, env *refEnv, sessionp
 			fail("wrong-secret", "address %v: bound to secret %q, the first matching scope %s has %q", a.IP(), secret, sc.Name, sc.Secret.Key)
 		}
 		// the user set behind the handler is that of the scope: PAP probes with every credential
-		d, err := env.dial(a.IP(), 7000+pi)
+		d, err := env.dialZone(a.IP(), 7000+pi, p.Zone)
 		if err != nil {
 			t.Fatalf("%v", err)
 		}
